@@ -1672,6 +1672,15 @@ class Entity(Instance):
         )
 
     def _entity_declaration(self) -> TextBlock:
+        if len(self._ports) == 0:
+            # an empty port clause is not allowed in VHDL
+            return TextBlock(
+                [
+                    f"entity {self._name} is",
+                    f"end {self._name};",
+                ]
+            )
+
         return TextBlock(
             [
                 f"entity {self._name} is",
